@@ -148,13 +148,84 @@ theorem c16_walk_retention (timeAt : Nat → Option Int64) (oldTailH storeH : Na
           · exact ih (h + 1) hr k (by omega) b
     · simp at hr; subst hr; intro k a b; omega
 
-/-- Retention is FALSE for the head-based estimate when blocks are denser than blockTime (which the
-    property allows: spacing AT MOST the block time): spacing 1 s, blockTime 2 s, window 100 s, old
-    tail 400 s old at height 1, head at height 401 — the estimate is 351, i.e. the 50 headers
-    301..350 (ages 51..100 s, inside the window) are pruned (finding F7). -/
-theorem c16_retention_counterexample :
+/-- the downward walk never moves up, and where it stops one of three things holds: it reached the old tail,
+    the estimate lies above the local store (nothing to look at), or the header just below is OLDER than the
+    window -/
+theorem c16_walkDown_spec (timeAt : Nat → Option Int64) (oldTailH storeH : Nat) (e : Int64) (fuel h r : Nat)
+    (hf : h < fuel) (hr : walkDown timeAt oldTailH storeH e fuel h = some r) :
+    r ≤ h ∧ (r ≤ oldTailH ∨ storeH < r ∨ ∃ t, timeAt (r - 1) = some t ∧ t < e) := by
+  induction fuel generalizing h with
+  | zero => omega
+  | succ f ih =>
+    unfold walkDown at hr
+    split at hr
+    · rename_i hc
+      split at hr
+      · cases hr
+      · rename_i t ht
+        split at hr
+        · rename_i hlt
+          simp at hr; subst hr
+          exact ⟨Nat.le_refl _, Or.inr (Or.inr ⟨t, ht, hlt⟩)⟩
+        · have := ih (h - 1) (by omega) hr
+          exact ⟨by omega, this.2⟩
+    · rename_i hc
+      simp at hr; subst hr
+      refine ⟨Nat.le_refl _, ?_⟩
+      by_cases a : h ≤ oldTailH
+      · exact Or.inl a
+      · exact Or.inr (Or.inl (by omega))
+
+/-- the walk never leaves `[min n oldTail .. max n storeH]` -/
+theorem c16_walkBoth_bounds (timeAt : Nat → Option Int64) (oldTailH storeH : Nat) (e : Int64) (n r : Nat)
+    (hr : walkBoth timeAt oldTailH storeH e n = some r) : r ≤ max n storeH := by
+  unfold walkBoth at hr
+  split at hr
+  · cases hr
+  · rename_i d hd
+    have h1 := (c16_walkDown_spec timeAt oldTailH storeH e (n + 1) n d (by omega) hd).1
+    have h2 := (c16_walk_bounds timeAt oldTailH storeH e (storeH + 1) d r hr).2
+    have : max d storeH ≤ max n storeH := by
+      apply Nat.max_le.mpr
+      exact ⟨Nat.le_trans h1 (Nat.le_max_left _ _), Nat.le_max_right _ _⟩
+    exact Nat.le_trans h2 this
+
+/-- **C16 retention** (full strength for the window path, after the F7 repair): when header times do not
+    decrease with height and the estimate lies within the local store, NO header the move prunes
+    (`oldTail ≤ k < newTail`) is younger than the pruning window — whatever the spacing of the headers and whatever
+    the configured block time. -/
+theorem c16_retention (timeAt : Nat → Option Int64) (oldTailH storeH : Nat) (e : Int64) (n r : Nat)
+    (mono : ∀ a b ta tb, a ≤ b → timeAt a = some ta → timeAt b = some tb → ta ≤ tb)
+    (hn : n ≤ storeH)
+    (hr : walkBoth timeAt oldTailH storeH e n = some r) :
+    ∀ k t, oldTailH ≤ k → k < r → timeAt k = some t → t < e := by
+  unfold walkBoth at hr
+  split at hr
+  · cases hr
+  · rename_i d hd
+    obtain ⟨hle, hstop⟩ := c16_walkDown_spec timeAt oldTailH storeH e (n + 1) n d (by omega) hd
+    have hup := c16_walk_retention timeAt oldTailH storeH e (storeH + 1) d r hr
+    intro k t hk1 hk2 hkt
+    by_cases hkd : d ≤ k
+    · obtain ⟨t', ht', hlt⟩ := hup k hkd hk2
+      rw [hkt] at ht'; cases ht'; exact hlt
+    · rcases hstop with h1 | h1 | ⟨t', ht', hlt⟩
+      · omega
+      · omega
+      · have := mono k (d - 1) t t' (by omega) hkt ht'
+        exact Int64.lt_of_le_of_lt this hlt
+
+/-- The head-based ESTIMATE alone overshoots when blocks are denser than blockTime (spacing 1 s, blockTime 2 s,
+    window 100 s, old tail 400 s old at height 1, head at height 401: the estimate is 351 although the headers
+    301..350 are inside the window).  This was finding F7; the downward walk (`c16_retention`) now corrects it. -/
+theorem c16_estimate_overshoots_example :
     tailEstimate 100000000000 2000000000 1 0 401 400000000000
       = .val (.walk 351 300000000000) := by decide
+
+/-- … and on that very chain (header k at time (k-1) s) the two walks bring the tail back to 301: the first
+    header inside the window -/
+example : walkBoth (fun k => some (Int64.ofNat ((k - 1) * 1000000000))) 1 401 300000000000 351 = some 301 := by
+  decide
 
 example : estimateTailHeight 1209600000000000 0 100 = .val 1 := by decide
 example : estimateTailHeight 3600000000000 6000000000 1000 = .val 400 := by decide
